@@ -138,6 +138,10 @@ def run_tlc(main: str, cfg: str, data: dict[str, str] | None = None, *, modules:
             pass
         if m:
             r.generated, r.distinct = int(m.group(1)), int(m.group(2))
+        if simulate is not None and not r.generated:
+            ms = re.search(r"The number of states generated: (\d+)", out)
+            if ms:
+                r.generated = r.distinct = int(ms.group(1))      # states visited along the simulated behaviours
         m = _DEPTH.search(out)
         if m:
             r.depth = int(m.group(1))
